@@ -17,7 +17,7 @@ THEOREMS = ['Inst/TotalParse.v: cur_parse_total (forall t, exists stmts, cur_par
             'Group/TotalFacts.v: group_total_needs_shape_refuted / group_where_diverges_without_shape_refuted: on hand-built '
             'trees that no text produces group_where raises IndexError / does not terminate -- the shape invariant is necessary',
             'Filters/StripCommentsFacts.v sc_total; Filters/ReindentFuel.v rprocess_total (reindent total on rx_safe trees); '
-            'Filters/ReindentInstFacts.v reindent_total_refuted ("(as)": IndexError in strip_whitespace, a finding)']
+            'Filters/ReindentInstFacts.v reindent_paren_as_fixed ("(as)": raised IndexError in strip_whitespace until the fix commit 6a54b84)']
 TRUSTED = ['accessors and filters other than the modelled ones are covered by the direct oracle only']
 ASSUMPTIONS = ['recursion depth is C15; option validation is the C07 options part']
 
